@@ -721,6 +721,183 @@ func childPlan(idx, from int, tier string, doublePct, doubleSmall, filePct int, 
 	os.Exit(0)
 }
 
+// ---- child: one store holding several plans -----------------------------------------------------------------
+
+var newDeadline = 5 * time.Second
+
+// multiSpecs: the plans of store i - 3..6 plans that are Running at a crash point of their own, 0..2 plans that are
+// not (finished, or never started). Plan indices are disjoint from the single-plan ranges.
+func multiSpecs(seed uint64, store int) (idx []int, running []bool, r *core.Rand) {
+	r = core.NewRand(seed).Fork(uint64(store)).Fork(0x3a11)
+	nrun, nother := r.Range(3, 6), r.Range(0, 2)
+	for j := 0; j < nrun+nother; j++ {
+		idx = append(idx, 700000+store*16+j)
+		running = append(running, j < nrun)
+	}
+	return
+}
+
+// childMulti: the plans of store `store` are run uninterrupted one by one (each on its own vault), a crash image of
+// each is put into ONE fresh vault, and one Workstream is opened on it: coercion.New must return (newDeadline) and
+// every plan that was Running must be driven to its end (recoverDeadline each). One rec case per plan.
+func childMulti(store int, tier, out string) {
+	f0, err := os.OpenFile(out, os.O_CREATE|os.O_WRONLY|os.O_APPEND, 0644)
+	if err != nil {
+		fmt.Fprintln(os.Stderr, err)
+		os.Exit(2)
+	}
+	w := &lineWriter{f0}
+	seed := core.Seed()
+	ctx := context.Background()
+	set := plugs()
+	idx, wantRunning, r := multiSpecs(seed, store)
+	type member struct {
+		sp      *Spec
+		base    *PlanRun
+		img     *workflow.Plan
+		k       int
+		writes  int
+		verdict int
+		run     *PlanRun
+		kind    string
+	}
+	var ms []*member
+	var comp []map[string]any
+	for j, pi := range idx {
+		sp := genSpec(seed, tier, pi)
+		o := runFresh(sp, seed)
+		if o.err != "" || o.hang || o.fin == nil || len(o.snaps) == 0 {
+			w.Put(runCase(sp, seed, o, 0))
+			continue
+		}
+		m := &member{sp: sp, base: o.run, writes: len(o.snaps), verdict: int(o.fin.State.Status)}
+		if wantRunning[j] {
+			// a write prefix at which the plan is durably Running
+			var ks []int
+			for k, s := range o.snaps {
+				if s != nil && s.State != nil && s.State.Status == workflow.Running {
+					ks = append(ks, k+1)
+				}
+			}
+			if len(ks) == 0 {
+				continue
+			}
+			m.k, m.kind = ks[r.Intn(len(ks))], "running"
+			m.img = o.snaps[m.k-1]
+		} else if r.Chance(0.5) {
+			m.k, m.kind = len(o.snaps), "finished"
+			m.img = o.snaps[len(o.snaps)-1]
+		} else {
+			rr := core.NewRand(seed).Fork(uint64(sp.Index)).Fork(0x1d)
+			rr.Uint64()
+			m.img, _ = build(sp, rr, "unused")
+			m.k, m.kind = 0, "not-started"
+		}
+		ms = append(ms, m)
+		comp = append(comp, map[string]any{"plan_index": pi, "crash_after_write": m.k, "of_writes": m.writes, "state": m.kind})
+	}
+	inner, err := sqlite.New(ctx, "", set.Reg, sqlite.WithInMemory())
+	if err != nil {
+		w.Put(core.Case{ID: fmt.Sprintf("store-%d", store), Kind: "rec", Note: "harness: sqlite.New: " + err.Error()})
+		os.Exit(0)
+	}
+	v := &obsVault{Vault: inner}
+	for j, m := range ms {
+		nonce := fmt.Sprintf("%s-store%d-p%d", m.base.Nonce, store, j)
+		m.run = m.base.observer(nonce)
+		setNonce(m.img, nonce)
+		if err := inner.Create(ctx, m.img); err != nil {
+			w.Put(core.Case{ID: fmt.Sprintf("store-%d", store), Kind: "rec", Note: "harness: create: " + err.Error()})
+			os.Exit(0)
+		}
+		if j == 0 {
+			v.run = m.run
+		} else {
+			v.more = append(v.more, m.run)
+		}
+	}
+	images := make([]*Image, len(ms))
+	resumed := make([]bool, len(ms))
+	for j, m := range ms {
+		rb, err := inner.Read(ctx, m.run.ID)
+		if err != nil {
+			w.Put(core.Case{ID: fmt.Sprintf("store-%d", store), Kind: "rec", Note: "harness: read: " + err.Error()})
+			os.Exit(0)
+		}
+		images[j] = m.run.imageOf(rb)
+		resumed[j] = rb.State != nil && rb.State.Status == workflow.Running
+		register(m.run)
+	}
+	type newRes struct {
+		ws  *coercion.Workstream
+		err error
+	}
+	ch := make(chan newRes, 1)
+	go func() {
+		ws, err := coercion.New(ctx, set.Reg, v)
+		ch <- newRes{ws, err}
+	}()
+	var ws *coercion.Workstream
+	select {
+	case nr := <-ch:
+		if nr.err != nil {
+			w.Put(core.Case{ID: fmt.Sprintf("store-%d", store), Kind: "rec", Note: "harness: coercion.New: " + nr.err.Error()})
+			os.Exit(0)
+		}
+		ws = nr.ws
+	case <-time.After(newDeadline):
+		nrun := 0
+		for _, b := range resumed {
+			if b {
+				nrun++
+			}
+		}
+		w.Put(core.Case{ID: fmt.Sprintf("store-%d", store), Kind: "store-hang", Nontrivial: true,
+			Note: fmt.Sprintf("hang: coercion.New did not return within %s on a store holding %d plans (%d Running)", newDeadline, len(ms), nrun),
+			Dist: map[string]any{"hang": true, "multi": true, "plans": len(ms), "running_plans": nrun},
+			Input: map[string]any{"seed": seed, "store": store, "composition": comp}})
+		os.Exit(4)
+	}
+	obs := make([]recObs, len(ms))
+	var wg sync.WaitGroup
+	for j, m := range ms {
+		obs[j] = recObs{run: m.run, image: images[j], resumed: resumed[j], cancelUs: -1}
+		wg.Add(1)
+		go func(j int, m *member) {
+			defer wg.Done()
+			wctx, cancel := context.WithTimeout(ctx, recoverDeadline)
+			fin, err := ws.Wait(wctx, m.run.ID)
+			cancel()
+			logMu.Lock()
+			if err != nil || fin == nil {
+				obs[j].hang = true
+			} else {
+				obs[j].finImage = m.run.imageOf(fin)
+				m.run.logLocked(Event{Kind: 'X', Img: obs[j].finImage})
+			}
+			logMu.Unlock()
+		}(j, m)
+	}
+	wg.Wait()
+	time.Sleep(settleDelay)
+	anyHang := false
+	for j, m := range ms {
+		obs[j].evs = closeRun(m.run)
+		obs[j].after, obs[j].leak = settle(m.run)
+		c := recCase(m.sp, seed, fmt.Sprintf("store-%d-p%d", store, j), 1, m.k, 0, m.verdict, obs[j], m.writes)
+		c.Dist["multi"], c.Dist["plans_in_store"], c.Dist["store"] = true, len(ms), store
+		if in, ok := c.Input.(map[string]any); ok {
+			in["store"], in["composition"] = store, comp
+		}
+		w.Put(c)
+		anyHang = anyHang || obs[j].hang
+	}
+	if !anyHang {
+		inner.Close(ctx)
+	}
+	os.Exit(0)
+}
+
 // childRerun recovers the plan stored in a file-backed vault (a kept hang image, or the store of a killed child) in
 // this fresh process and prints one rec case.
 func statusOfTerm(s string) int {
@@ -942,6 +1119,20 @@ func onePlan(idx int, tier string, doublePct, doubleSmall, filePct int, tmp stri
 	return all
 }
 
+// oneStore runs the child of one multi-plan store; a child that does not come back is a hang of the store.
+func oneStore(store int, tier, tmp string) []core.Case {
+	out := filepath.Join(tmp, fmt.Sprintf("store-%d.jsonl", store))
+	code, to := runChild([]string{"-child-multi", fmt.Sprint(store), "-tier", tier, "-out", out}, 3*time.Minute)
+	cs := readCases(out)
+	os.Remove(out)
+	if (code != 0 && code != 4) || to || len(cs) == 0 {
+		cs = append(cs, core.Case{ID: fmt.Sprintf("store-%d", store), Kind: "child-died",
+			Note: fmt.Sprintf("the child process of store %d died (exit %d, timed out %v)", store, code, to),
+			Dist: map[string]any{"hang": true, "multi": true}, Input: map[string]any{"seed": core.Seed(), "store": store}})
+	}
+	return cs
+}
+
 func verdictOf(c core.Case) string {
 	if m, ok := c.Observed.(map[string]any); ok {
 		if s, ok := m["uninterrupted_verdict"].(string); ok {
@@ -1009,6 +1200,8 @@ func killRound(i, idx int, tier, tmp string) []core.Case {
 
 func main() {
 	childPlanF := flag.Int("child-plan", -1, "internal")
+	childMultiF := flag.Int("child-multi", -1, "internal")
+	stores := flag.Int("stores", 0, "stores holding 3-6 Running plans (and 0-2 others), recovered by one coercion.New")
 	childRerunF := flag.String("child-rerun", "", "internal: directory of a file-backed vault")
 	childKillF := flag.String("child-killrun", "", "internal: directory of a file-backed vault")
 	idxF := flag.Int("idx", 0, "internal")
@@ -1034,6 +1227,11 @@ func main() {
 	if *childPlanF >= 0 {
 		runtime.GOMAXPROCS(4)
 		childPlan(*childPlanF, *from, *tier, *double, *doubleSmall, *file, *out, *tmpF, *attemptF)
+		return
+	}
+	if *childMultiF >= 0 {
+		runtime.GOMAXPROCS(4)
+		childMulti(*childMultiF, *tier, *out)
 		return
 	}
 	if *childRerunF != "" {
@@ -1077,17 +1275,21 @@ func main() {
 		nw = min(16, runtime.NumCPU())
 	}
 	type job struct {
-		pos  int
-		kill bool
+		pos   int
+		kill  bool
+		store bool
 	}
-	total := len(idx) + *kills
+	total := len(idx) + *kills + *stores
 	results := make([][]core.Case, total)
 	next := make(chan job, total)
 	for i := range idx {
-		next <- job{i, false}
+		next <- job{i, false, false}
 	}
 	for i := 0; i < *kills; i++ {
-		next <- job{len(idx) + i, true}
+		next <- job{len(idx) + i, true, false}
+	}
+	for i := 0; i < *stores; i++ {
+		next <- job{len(idx) + *kills + i, false, true}
 	}
 	close(next)
 	var wg sync.WaitGroup
@@ -1096,7 +1298,10 @@ func main() {
 		go func() {
 			defer wg.Done()
 			for j := range next {
-				if j.kill {
+				if j.store {
+					i := j.pos - len(idx) - *kills
+					results[j.pos] = oneStore(*from+i, *tier, tmp)
+				} else if j.kill {
 					i := j.pos - len(idx)
 					results[j.pos] = killRound(i, *from+i%max(1, len(idx)), *tier, tmp)
 				} else {
